@@ -130,7 +130,13 @@ func simIssues(c *CompileResult) []Issue {
 		if len(f) < 4 {
 			continue
 		}
-		if f[0] == "map-write" {
+		if f[2] < f[1] {
+			f[1], f[2] = f[2], f[1]
+		}
+		if f[0] == "map-read-write" {
+			out = append(out, Issue{Class: "crash:concurrent-map-read-write@" + f[1] + "+" + f[2],
+				Detail: fmt.Sprintf("%s read and write the same map at %s and %s with no happens-before edge between the accesses: on a multi-core machine the Go runtime aborts with 'fatal error: concurrent map read and map write'", f[3], f[1], f[2])})
+		} else if f[0] == "map-write" {
 			out = append(out, Issue{Class: "crash:concurrent-map-write@" + f[1] + "+" + f[2],
 				Detail: fmt.Sprintf("%s write the same map at %s and %s with no happens-before edge between the writes: on a multi-core machine the Go runtime aborts with 'fatal error: concurrent map writes'", f[3], f[1], f[2])})
 		} else {
